@@ -89,6 +89,27 @@ theorem C06_identity_shortcut_breaks :
     Coherent demoCompute (step demoCompute o1 (.assign "_buffers" (o1.attrs "_buffers"))) :=
   identity_shortcut_breaks
 
+/-! ## early exits and several live handles -/
+
+/-- a method that raises or returns early has performed a PREFIX of its extracted effects; the safety
+check is closed under prefixes, so `C06_all_methods_coherent` also covers every aborted call
+(e.g. `set_buffers(leading=1, trailing=-1)`, which raises after the leading buffers were written) -/
+theorem C06_safe_prefix (clearing deps : List Name) (l : List Eff) (e : Bool) (k : Nat)
+    (h : safe clearing deps e l = true) : safe clearing deps e (l.take k) = true :=
+  safe_take clearing deps l e k h
+
+/-- two handles that store the SAME attribute object (a ray path keeps the endpoint arrays of its
+tracer): an augmented assignment through the first handle clears only the first handle's cache, and
+the second handle serves a stale value.  This is known finding K19 - the model shows why no
+`__setattr__`-based scheme can see it. -/
+theorem C06_shared_attribute_breaks :
+    let a := step demoCompute demoObj (.read "values")
+    let b := step demoCompute demoObj (.read "values")
+    Coherent demoCompute a ∧ Coherent demoCompute b ∧
+    Coherent demoCompute (sharedAugAssign demoCompute a b "_buffers" (· + 1)).1 ∧
+    ¬ Coherent demoCompute (sharedAugAssign demoCompute a b "_buffers" (· + 1)).2 :=
+  shared_attribute_breaks
+
 /-! ## the regenerated tables -/
 
 /-- the two generated tables describe the same classes in the same order -/
@@ -244,6 +265,17 @@ theorem C06_values_filter_append (d : Sig.FData) (vs : Sig.Arr) (c : Rat) (h : S
   Sig.fnValues_filter_append c h
 
 /-! ## non-vacuity -/
+-- the aborted `set_buffers` (clear, leading buffers written, then the exception) is a safe prefix
+example : safe ["_buffers"] ["_buffers"] false ([Eff.clear, .mutate "_buffers", .mutate "_buffers"].take 2) = true := by
+  decide
+-- hypotheses of the generic lemmas on a concrete object: a static name, a coherent non-empty cache
+example : "times" ∈ (⟨fun _ => 1, fun _ => none, ["times"]⟩ : Obj).static := by decide
+example : Coherent demoCompute (step demoCompute demoObj (.read "values")) ∧
+    (step demoCompute demoObj (.read "values")).cache "values" = some 0 :=
+  ⟨read_coherent _ _ (coherent_of_empty (fun _ => rfl)), by simp [step, demoObj, demoCompute]⟩
+-- value algebra on a concrete two-component signal with a filter
+example : Sig.fnValues ⟨[0, 1, 2], [3, 0], [0, 1], [1, 2], [[0, 0], [1, 0]], [[0], []]⟩ = some [-3/2, 3/2, 9/2] := by
+  decide +kernel
 example : 0 ≤ (5 : Rat) / 2 ∧ Sig.nbuf 5 2 = 3 ∧ Sig.nbuf 4 2 = 2 := by decide +kernel
 example : Sig.fnValuesA Sig.gainSem ⟨[0, 1, 2], [3], [0], [1], [[2, 0]], [[0]]⟩ = some [1/2, 3/2, 5/2] := by
   decide +kernel
